@@ -13,6 +13,7 @@ from wikitextprocessor import Wtp  # noqa: E402
 
 GATED = {"create_db", "init_wikidata_cache", "add_empty_sandbox_lua_module", "initialize_lua"}
 count = [0]
+line_fns = []
 gate = spec.get("gate")
 
 
@@ -24,6 +25,7 @@ def tracer(frame, event, arg):
     def local(frame, event, arg):
         if event == "line":
             count[0] += 1
+            line_fns.append(code.co_name)
             if gate and count[0] == gate.get("line"):
                 open(gate["reached"], "w").write(str(frame.f_lineno))
                 t0 = time.time()
@@ -63,5 +65,7 @@ except BaseException as e:  # noqa
     tb = traceback.extract_tb(e.__traceback__)
     res["error"] = [type(e).__name__, str(e)[:120], tb[-1].name if tb else ""]
 res["lines"] = count[0]
+if spec.get("count_lines"):
+    res["line_fns"] = line_fns
 open(spec["out"], "w").write(json.dumps(res))
 os._exit(0)
